@@ -512,13 +512,15 @@ impl RawLexer {
             None => return false,
             Some(c) => c,
         };
+        // The caret notation only applies to ASCII characters (TeX.2021.352);
+        // otherwise the two carets are regular characters.
+        if !char_3.is_ascii() {
+            return false;
+        }
         if !char_1_consumed {
             self.advance();
         }
         self.advance();
-        if !char_3.is_ascii() {
-            return true;
-        }
         let u: u8 = match (char_3 as u32).try_into() {
             Ok(u) => u,
             Err(_) => return true, // unreachable because char_3 is ASCII
